@@ -70,6 +70,34 @@ main(int argc, char** argv)
         v_alloc_reset(&va);
       }
       free(s);
+    } else if (!strcmp(tok[0], "expanda") && n == 3) {
+      // expanda <refused request indexes, comma separated, or -> <string>: result and the allocator's event log
+      size_t len = 0;
+      char*  s   = (char*)v_unhex(tok[2], &len, true);
+      v_alloc_reset(&va);
+      va.logging = true;
+      if (strcmp(tok[1], "-")) {
+        for (const char* p = tok[1]; *p;) {
+          const unsigned long k = strtoul(p, (char**)&p, 10);
+          if (k < 64) va.fail_bits |= 1ULL << k;
+          if (*p == ',') ++p;
+        }
+      }
+      alarm(10);
+      char* r = zix_expand_environment_strings(&va.base, s);
+      alarm(0);
+      fputs("out=", stdout);
+      if (r) v_puthex(stdout, r, strlen(r)); else fputs("NULL", stdout);
+      const long outstanding = v_alloc_outstanding(&va);
+      if (outstanding != (r ? 1 : 0) || va.n_errors) printf(" SPEC-FAIL:%ld-blocks-outstanding-%ld-discipline-errors", outstanding, va.n_errors);
+      fputs(" |", stdout);
+      v_alloc_put_log(&va, stdout);
+      fputc('\n', stdout);
+      va.logging = false;
+      va.fail_bits = 0;
+      if (r) zix_free(&va.base, r);
+      v_alloc_reset(&va);
+      free(s);
     } else {
       puts("bad-op");
     }
